@@ -61,6 +61,10 @@ class Stats:
         self.violated = 0
         self.decisions = 0
         self.forced = 0
+        self.cross_checked = 0
+        self.cross_agreed = 0
+        self.cross_disagreed = 0
+        self.cross_other_inconclusive = 0
 
     def add(self, o):
         for k, v in o.__dict__.items():
@@ -76,7 +80,7 @@ cur: "Engine" = None  # the engine proxies talk to
 
 
 class Engine:
-    def __init__(self, timeout_ms=30000, max_paths=None, seed=0):
+    def __init__(self, timeout_ms=30000, max_paths=None, seed=0, cross_every=0):
         self.solver = z3.Solver()
         self.solver.set("timeout", timeout_ms)
         self.solver.set("random_seed", seed & 0x7FFFFFFF)
@@ -96,6 +100,8 @@ class Engine:
         self.path_log = None    # per-path observation list
         self.sym_mode = True
         self.sints = {}
+        self.cross_every = cross_every
+        self.cross_faults = []
 
     # ------------------------------------------------------------------ fresh names
     def fresh(self, prefix="t"):
@@ -108,6 +114,8 @@ class Engine:
         r = self.solver.check(*extra)
         self.stats.solver_s += time.perf_counter() - t0
         self.stats.queries += 1
+        if self.cross_every and (self.stats.queries % self.cross_every == 0 or self.stats.queries in (5, 37)) and r != z3.unknown:
+            self._cross_check(extra, "sat" if r == z3.sat else "unsat")
         if r == z3.sat:
             self.stats.sat += 1
             return True
@@ -116,6 +124,38 @@ class Engine:
             return False
         self.stats.unknown += 1
         raise Inconclusive(f"solver returned unknown ({self.solver.reason_unknown()})")
+
+    def _cross_check(self, extra, ours):
+        """re-decide a sampled query with two other solvers (z3 4.8.12 and cvc5 binaries)"""
+        import os
+        import subprocess
+        import tempfile
+
+        s2 = z3.Solver()
+        s2.add(self.solver.assertions())
+        for e in extra:
+            s2.add(e)
+        text = "(set-logic ALL)\n" + s2.to_smt2()
+        fd, path = tempfile.mkstemp(suffix=".smt2", prefix="sxq.")
+        with os.fdopen(fd, "w") as fh:
+            fh.write(text)
+        try:
+            for name, cmd in (("z3-4.8.12", ["/usr/bin/z3", "-smt2", "-T:20", path]), ("cvc5", ["cvc5", "--tlimit=20000", path])):
+                try:
+                    out = subprocess.run(cmd, capture_output=True, text=True, timeout=30).stdout
+                except Exception:  # noqa: BLE001
+                    out = "timeout"
+                first = (out.strip().splitlines() or [""])[0].strip()
+                self.stats.cross_checked += 1
+                if "(error" in out or first not in ("sat", "unsat"):
+                    self.stats.cross_other_inconclusive += 1
+                elif first == ours:
+                    self.stats.cross_agreed += 1
+                else:
+                    self.stats.cross_disagreed += 1
+                    self.cross_faults.append({"solver": name, "ours": ours, "theirs": first, "query": text[:4000]})
+        finally:
+            os.unlink(path)
 
     def _add(self, cond):
         self.solver.add(cond)
